@@ -169,6 +169,9 @@ def parse_const(c):
         else:
             v = (1 << w) - 1 if m.group(2) == 'MAX' else 0
         return ('int', v, t)
+    m = re.match(r'(?:.*::)?([ui](?:8|16|32|64|128|size))::BITS$', c) or re.match(r'.*<impl ([ui](?:8|16|32|64|128|size))>::BITS$', c)
+    if m:
+        return ('int', W[m.group(1)], 'u32')
     m = re.match(r'CHAR(\d+)$', c)
     if m:
         return ('int', int(m.group(1)), 'char')
